@@ -47,14 +47,40 @@ Definition kx_eqb (a b : keys_extra) : bool :=
   | _, _ => false
   end.
 
+(* A signature label of the model names the data that was signed; the driver classifies the
+   observed bytes relative to the data of the message that carries them (recovery over the
+   message's own hash-tree-root). A signature over other data recovers, over that root, to an
+   address nobody holds: both sides are normalised to that view before they are compared. *)
+Definition norm_sig (own : tuple) (s : csig) : csig :=
+  match s with
+  | SigBy a h => if tuple_eqb h own then s else SigStray
+  | _ => s
+  end.
+
+Definition norm_kx (inst eon : N) (ids : list bytes) (x : keys_extra) : keys_extra :=
+  match x with
+  | KxGnosis s p i g => KxGnosis s p i (map (norm_sig (TGnosis inst eon s p ids)) g)
+  | KxService i g => KxService i (map (norm_sig (TService inst eon ids)) g)
+  | _ => x
+  end.
+
+Definition norm_sx (inst eon : N) (ids : list bytes) (x : shares_extra) : shares_extra :=
+  match x with
+  | SxGnosis s p g => SxGnosis s p (norm_sig (TGnosis inst eon s p ids) g)
+  | SxService g => SxService (norm_sig (TService inst eon ids) g)
+  | _ => x
+  end.
+
 Definition gmsg_eqb (a b : gmsg) : bool :=
   match a, b with
   | MShares x, MShares y =>
       (s_inst x =? s_inst y)%N && (s_eon x =? s_eon y)%N && (s_kidx x =? s_kidx y)%N
-      && list_eqb item_eqb (s_shares x) (s_shares y) && sx_eqb (s_extra x) (s_extra y)
+      && list_eqb item_eqb (s_shares x) (s_shares y)
+      && sx_eqb (norm_sx (s_inst x) (s_eon x) (sh_ids x) (s_extra x)) (norm_sx (s_inst y) (s_eon y) (sh_ids y) (s_extra y))
   | MKeys x, MKeys y =>
       (km_inst x =? km_inst y)%N && (km_eon x =? km_eon y)%N
-      && list_eqb item_eqb (km_keys x) (km_keys y) && kx_eqb (km_extra x) (km_extra y)
+      && list_eqb item_eqb (km_keys x) (km_keys y)
+      && kx_eqb (norm_kx (km_inst x) (km_eon x) (k_ids x) (km_extra x)) (norm_kx (km_inst y) (km_eon y) (k_ids y) (km_extra y))
   | _, _ => false
   end.
 
